@@ -233,6 +233,15 @@ func (bm *ConnectedBitmask) Xor(other ConnectedBitmask) {
 	*bm = bm.XorCopy(other)
 }
 
+// appendMerged appends e to entries, merging it with the last entry if they touch
+func appendMerged(entries []connectedBitmaskEntry, e connectedBitmaskEntry) []connectedBitmaskEntry {
+	if l := len(entries); l != 0 && entries[l-1].max+1 == e.min {
+		entries[l-1].max = e.max
+		return entries
+	}
+	return append(entries, e)
+}
+
 func (bm ConnectedBitmask) XorCopy(other ConnectedBitmask) ConnectedBitmask {
 	new := []connectedBitmaskEntry(nil)
 	aIdx, bIdx := 0, 0
@@ -240,12 +249,12 @@ func (bm ConnectedBitmask) XorCopy(other ConnectedBitmask) ConnectedBitmask {
 		a, b := bm.entries[aIdx], other.entries[bIdx]
 		for {
 			if a.max < b.min {
-				new = append(new, a)
+				new = appendMerged(new, a)
 				aIdx++
 				break
 			}
 			if b.max < a.min {
-				new = append(new, b)
+				new = appendMerged(new, b)
 				bIdx++
 				break
 			}
@@ -258,7 +267,7 @@ func (bm ConnectedBitmask) XorCopy(other ConnectedBitmask) ConnectedBitmask {
 					n.min = b.min
 					n.max = a.min - 1
 				}
-				new = append(new, n)
+				new = appendMerged(new, n)
 			}
 			if a.max == b.max {
 				aIdx++
@@ -269,7 +278,7 @@ func (bm ConnectedBitmask) XorCopy(other ConnectedBitmask) ConnectedBitmask {
 				a.min = b.max + 1
 				bIdx++
 				if bIdx >= len(other.entries) {
-					new = append(new, a)
+					new = appendMerged(new, a)
 					aIdx++
 					break
 				}
@@ -278,7 +287,7 @@ func (bm ConnectedBitmask) XorCopy(other ConnectedBitmask) ConnectedBitmask {
 				b.min = a.max + 1
 				aIdx++
 				if aIdx >= len(bm.entries) {
-					new = append(new, b)
+					new = appendMerged(new, b)
 					bIdx++
 					break
 				}
@@ -286,8 +295,12 @@ func (bm ConnectedBitmask) XorCopy(other ConnectedBitmask) ConnectedBitmask {
 			}
 		}
 	}
-	new = append(new, bm.entries[aIdx:]...)
-	new = append(new, other.entries[bIdx:]...)
+	for _, e := range bm.entries[aIdx:] {
+		new = appendMerged(new, e)
+	}
+	for _, e := range other.entries[bIdx:] {
+		new = appendMerged(new, e)
+	}
 	return ConnectedBitmask{new}
 }
 
